@@ -41,7 +41,7 @@ func (h *harness) opLinks(spec string, how string) {
 	}
 	tar = append(tar, rawTarEnd()...)
 	lr := newLimit(tar, 64*len(ks)*len(ks)+4096)
-	out := guard(func() string {
+	out := deadline(func() string {
 		sys, err := tarfs.New(lr)
 		if err != nil {
 			return "err:new"
@@ -71,7 +71,7 @@ func (h *harness) opLinks(spec string, how string) {
 	case "panic":
 		h.fail("", "tarfs-open-panic links="+spec+" tar="+hx.Hex(tar))
 	case "hang":
-		h.fail("", fmt.Sprintf("tarfs-open-does-not-terminate (more than %d reads for %d members) links=%s tar=%s", lr.limit, len(ks), spec, hx.Hex(tar)))
+		h.fail("", fmt.Sprintf("tarfs-open-does-not-terminate (more than %d reads, or no answer within 30 s, for %d members) links=%s tar=%s", lr.limit, len(ks), spec, hx.Hex(tar)))
 	}
 	h.r.Count("links:" + how)
 	for _, o := range strings.Split(out, ",") {
